@@ -831,3 +831,17 @@ def cancel_then_close_family(thin: int = 1) -> List[dict]:
                             steps.extend(copy.deepcopy(DRAIN))
                             cases.append({"pools": [{"cls": "TaskPool", "size": size}], "steps": steps})
     return cases[::thin] if thin > 1 else cases
+
+
+def big_stop_family() -> List[dict]:
+    """stop(n) with n in the hundreds among 300 running tasks of a SimpleTaskPool (numbers beyond the small-integer cache)."""
+    cases: List[dict] = []
+    for n in (255, 256, 257, 258, 290):
+        for extra in (0, 1):
+            steps = [{"op": "spawn", "pool": 0, "kind": "start", "num": 300, "place": "inline"}, {"op": "settle"}]
+            if extra:
+                steps += [{"op": "cancel", "pool": 0, "refs": [["live", 5], ["live", 17]], "place": "inline"}, {"op": "settle"}]
+            steps += [{"op": "stop", "pool": 0, "n": n, "place": "inline"}, {"op": "settle"}, {"op": "stop", "pool": 0, "n": 3, "place": "inline"}, {"op": "settle"}]
+            steps += copy.deepcopy(DRAIN)
+            cases.append({"pools": [{"cls": "SimpleTaskPool", "size": None, "worker": {"script": [["wait"]], "fname": "w"}}], "steps": steps})
+    return cases
